@@ -26,8 +26,12 @@ def _build(config, history):
         r = cs.update_adaptive_combi(list(l))
         old, act, md = ref.update(old, act, tuple(l), lmin, d)
         if r != md or cs.old_index_set != old or cs.active_index_set != act:
-            raise core.HarnessError("replay of recorded history diverged at %r" % (l,))
+            raise Diverged(l)
     return cs, old, act
+
+
+class Diverged(Exception):
+    """the implementation left the reference model while replaying a history (reported at the transition where it happened)"""
 
 
 def _scheme_dict(sch):
@@ -109,11 +113,15 @@ def _box(config, I):
 def run_case(case):
     config, history = case["config"], [tuple(l) for l in case["history"]]
     d, lmin, lmax = config["d"], config["lmin"], config["lmax"]
-    if "request" in case:       # single transition (replay form)
-        fails, canon, md = _request(config, history, tuple(case["request"]), case.get("as_array", False))
-        return {"failures": fails, "canon": canon, "outcome": (canon, md)}
-    # expand: all requests of the box from the state reached by `history`
-    cs, old, act = _build(config, history)
+    try:
+        if "request" in case:       # single transition (replay form)
+            fails, canon, md = _request(config, history, tuple(case["request"]), case.get("as_array", False))
+            return {"failures": fails, "canon": canon, "outcome": (canon, md)}
+        # expand: all requests of the box from the state reached by `history`
+        cs, old, act = _build(config, history)
+    except Diverged as e:
+        return {"failures": [fail("lockstep_history", "history %r: implementation and reference model differ after request %r" % (history, e.args[0]),
+                                  {"d": d, "lmin_zero": lmin == 0})], "canon": None, "succ": []}
     fails = []
     if not history:
         key = {"d": d, "lmin_zero": lmin == 0}
